@@ -309,15 +309,27 @@ def main(argv=None):
         sid = rp["replay"]["scenario"]
         scns = []
         for tier in ("quick", "thorough"):
-            scns = [s for s in sup.scenario_table(tier)[0] if s.sid == sid]
+            table = sup.scenario_table(tier)[0]
+            scns = [s for s in table if s.sid == sid][:1]
             if scns:
+                # two well-behaved companions (one deterministic, one stochastic) so that the
+                # control traces of the batch can be derived and TraceCall is exercised
+                for e in ("get_Pk", "percolate_network"):
+                    scns += [s for s in table if s.entry == e][:1]
                 break
         if not scns:
             raise common.MachineryFailure("scenario %s of the replay file no longer exists" % sid)
-        print("replaying %s" % sid)
-        n, sub, rej = run(chk, scns[:1])
+        print("replaying %s (plus %d companion scenarios)" % (sid, len(scns) - 1))
+        n, sub, rej = run(chk, scns)
         print("replay: %d trace(s) submitted, %d rejected by TLC" % (sub, rej))
-        return chk.finish(RULE + " [replay of one scenario]", explanation=EXPLANATION)
+        # a replay must not replace the evidence of the last full run
+        evp = os.path.join(common.VERIF, "evidence", "C19.json")
+        keep = open(evp, "rb").read() if os.path.exists(evp) else None
+        rc = chk.finish(RULE + " [replay of one scenario]", explanation=EXPLANATION)
+        if keep is not None:
+            with open(evp, "wb") as fh:
+                fh.write(keep)
+        return rc
     scns, uncovered, missing = sup.scenario_table(chk.tier)
     eps = sup.public_entry_points()
     for n in uncovered:
